@@ -113,6 +113,25 @@ reg('C14', 'exploration',
     'branch-only on <,>,== of components so the alphabet covers every branch outcome in every slot.',
     'exhaustive all-pairs enumeration over tie-forcing value grids against lexicographic reference order', 'DESIGN.md section 7 C14')
 
+reg('C12', 'exploration',
+    'Bounded exhaustive exploration of the constitutive model: ALL 20 modulus-pair constructors and 7 accessors x a material grid '
+    'covering 75 binades of stiffness and Poisson ratios from exactly 0 through 2^-40 up to 1/2-2^-20 (the branch regions nu->0 and '
+    'nu->1/2 of the square-root and cancelling constructors) x 3 model precisions, each constructor fed the pair the model itself '
+    'reports and compared with the exact __float128 function of that pair and with the original material under the perturbation '
+    'oracle R3; stress/strain maps in all 9 (model precision x argument precision) combinations on basis/pair/generic tensors '
+    'against __float128, inverse composition, ignored arguments bitwise, zero stubs, and every call repeated through the abstract '
+    'interface. One genuine defect is a listed known finding (lambda, nu) at nu = 0; another was repaired (fix: 41f9bb8).',
+    TB + 'Material grid and tensor alphabet are finite; formulas are rational with at most one square root so the grid separates any '
+    'wrong constant, root or operand order by many orders of magnitude.',
+    'exhaustive sweep of constructors/accessors/overloads x material grid against __float128 reference with perturbation oracle', 'DESIGN.md section 7 C12')
+reg('C13', 'exploration',
+    'Bounded exhaustive exploration of both Newtonian fluid classes: 3 model precisions x 3 argument precisions x viscosity grid '
+    '(75 binades, five bulk/shear ratios including 0) x basis/pair/generic symmetric tensors: forward map against __float128, inverse '
+    'composition under R3, strain arguments ignored bitwise, stubs exactly +0, virtual interface bitwise identical, homogeneity '
+    'bitwise for power-of-two factors and additivity, single-argument compressible constructor identical to (mu, +0).',
+    TB + 'Finite viscosity/tensor alphabets; the maps are linear so basis + pair tensors identify the formula.',
+    'exhaustive sweep of overloads x precision combinations x viscosity grid against __float128 reference', 'DESIGN.md section 7 C13')
+
 PENDING = 'check not built yet in this session (planned, see DESIGN.md section 7); not a statement that model checking cannot apply'
 
 
